@@ -862,6 +862,76 @@ def r6_honest_injectors(ctx, F):
         q, r = a_ // b, a_ % b
         return [r >> 32, r & 0xFFFFFFFF, q >> 32, q & 0xFFFFFFFF]
     decide("push_u64_div_result", fn, envs, divref)
+    # ext2inv / ext2div: the inverse of (a0, a1) = (item 1, item 0) is pushed as b1 then b0 (b0 on top), and only the zero
+    # element is refused.  The constant the operand is compared with is a promoted constant the fact extractor does not
+    # evaluate; the source must name QuadFelt::ZERO (checked on the function's text).
+    fn = F.fn(INJ + "push_ext2_inv_result$")
+    ctx.inst(key="push_ext2_inv_result", nontrivial=True)
+    QE = "winter_math::field::extensions::quadratic::QuadExtension"
+    inv_args = []
+
+    def make2():
+        I = make()
+        ov = lambda rx, m: I.overrides.insert(0, (re.compile(rx), m))
+        ov(r"QuadExtension::new$", lambda I_, a, f: Agg([a[0], a[1]], "adt", QE, "QuadExtension"))
+
+        def qeq(I_, a, f):
+            x, y = deref(a[0]), deref(a[1])
+            if not (isinstance(x, Agg) and len(x.items) == 2):
+                x, y = y, x
+            if not (isinstance(x, Agg) and len(x.items) == 2) or isinstance(y, Agg):
+                raise Unanalysable("comparison of extension elements %r, %r" % (x, y))
+            inv_args.append("qeq")
+            for c in x.items:              # y: the unevaluated constant, QuadFelt::ZERO by the source text
+                if not I_.decide(Term("eq", c, Poly.const(0)), "ext2-zero"):
+                    return False
+            return True
+        ov(r"QuadExtension@PartialEq::eq$", qeq)
+
+        def qinv(I_, a, f):
+            inv_args.append([repr(x) for x in deref(a[0]).items])
+            return Agg([Poly.var("inv0"), Poly.var("inv1")], "adt", QE, "QuadExtension")
+        ov(r"QuadExtension.*::inv$", qinv)
+        ov(r"QuadExtension::to_base_elements$", lambda I_, a, f: Agg(list(deref(a[0]).items), "array"))
+        return I
+    try:
+        src = open("/repo/" + fn.file).read().split("\n")
+        body = "\n".join(src[fn.line - 1:fn.line + 25])
+        named_zero = len(re.findall(r"Quad(?:Felt|Extension)(?:::<[^>]*>)?::ZERO", body.split("\n}\n")[0])) >= 1
+        outs = []
+        for I, res, exc in enumerate_paths(make2, lambda I: I.call(fn.id, [Ptr([Opaque("provider")], 0), Ptr([Opaque("process")], 0)])):
+            if exc is not None:
+                raise exc
+            vals = []
+            for x in holder["pushed"]:
+                x = deref(x)
+                vals.append(repr(x.items[0]) if isinstance(x, Agg) and x.variant == "Value" else repr(x))
+            outs.append(("ok" if isinstance(res, Agg) and res.variant == "Ok" else "err", list(I.path), vals))
+        bad = None
+        used_qeq = "qeq" in inv_args
+        inv_args[:] = [x for x in inv_args if x != "qeq"]
+        if used_qeq and not named_zero:
+            bad = "the operand is compared with a constant that the source does not name QuadFelt::ZERO"
+        for a0 in (0, 1, 7):
+            for a1 in (0, 1, 7):
+                env = {"s0": a1, "s1": a0}
+                live = [o for o in outs if all(execmodel.guard_holds_with(evx, c, val, env) is not False for c, val, loc in o[1])]
+                kinds = {o[0] for o in live}
+                if (a0, a1) == (0, 0):
+                    if kinds != {"err"}:
+                        bad = bad or "the zero element is not refused"
+                elif kinds != {"ok"}:
+                    bad = bad or "the invertible element (a0, a1) = (%d, %d) is refused: ext2inv / ext2div then fail on valid operands" % (a0, a1)
+                elif any(o[2] != ["inv1", "inv0"] for o in live):
+                    bad = bad or "the inverse is pushed as %s; documented advice stack [b0, b1, ...] needs b1 pushed first" % (live[0][2],)
+        if not bad and any(x != ["s1", "s0"] for x in inv_args):
+            bad = "the inverted element is built from %s; (a0, a1) are stack items 1 and 0" % (inv_args[0],)
+    except (Unanalysable, PanicReached, OSError) as e:
+        ctx.violation("UNANALYSABLE|injector|push_ext2_inv_result", fn.loc(), str(e)[:300])
+    else:
+        ctx.oblig(bad is None)
+        if bad:
+            ctx.violation("injector-value|push_ext2_inv_result", fn.loc(), "push_ext2_inv_result: %s" % bad)
 
 
 def run(ctx, F):
